@@ -126,6 +126,22 @@ def d3(cx: Cx, ob: Ob) -> None:
                 if tg is not None and tg[0] == "CB" and (op(ev.a[1]) != "attr" or ev.a[1][2] in TABLES or ev.a[1][2] == "records" or ev.a[1] == root):
                     if ev.a[1] == root or (op(ev.a[1]) == "attr" and ev.a[1][1] == root):
                         ob.violate(fn.qualname, where(fn, ev.line), f"{fn.name} stores `{show(ev.a)[:60]}` through its converter input `{tg[1]}`", detail=f"store-through:{show(ev.a)[:40]}")
+            if ev.kind == "store" and isinstance(ev.b, tuple):
+                # a lookup table of an input converter handed to another object: the object itself, or a
+                # copy.copy of the trie (a pygtrie object: its shallow copy shares every node with the original)
+                v = ev.b
+                shallow = op(v) == "call" and v[1] == ("ext", "copy.copy") and len(v[2]) == 1
+                src = v[2][0] if shallow else v
+                if op(src) == "attr" and src[2] in TABLES and (not shallow or src[2] == "trie"):
+                    tg0 = o.tag(src[1])
+                    if tg0 is not None and tg0[0] == "CB":
+                        ob.violate(
+                            fn.qualname,
+                            where(fn, ev.line),
+                            f"{fn.name} stores {'a shallow copy of ' if shallow else ''}`{show(src)[:50]}` of its input `{tg0[1]}` as `{show(ev.a)[:50]}`: {'copy.copy of a trie copies only the wrapper, the nodes are shared' if shallow else 'both objects now use one table'}, so adding to the result changes what the input converter answers",
+                            witness="chain([a, b]) then a.compress(<URI of b>) is no longer None",
+                            detail=f"shares-table:{src[2]}",
+                        )
             for t in (ev.a, ev.b):
                 if not isinstance(t, tuple) or ev.kind not in ("expr", "bind", "store", "guard"):
                     continue
@@ -137,6 +153,14 @@ def d3(cx: Cx, ob: Ob) -> None:
                     tg = o.tag(recv)
                     if tg is not None and tg[0] == "CB" and name in CONV_MUTATORS:
                         ob.violate(fn.qualname, where(fn, ev.line), f"{fn.name} calls {name} on its converter input `{tg[1]}`", detail=f"mutator:{name}")
+                    if tg is not None and tg[0] == "ST" and (name in MUTATORS or name in ("intersection_update", "difference_update", "symmetric_difference_update")):
+                        ob.violate(
+                            fn.qualname,
+                            where(fn, ev.line),
+                            f"{fn.name} changes in place (.{name}) what `{show(recv)[:50]}` returned: that method hands out an object the converter `{tg[1]}` keeps in self.{tg[2]}, so the input converter's own state changes",
+                            witness="the input converter answers differently after the call although it was only read",
+                            detail=f"mutate-returned-state:{tg[2]}",
+                        )
                     if name in MUTATORS and op(recv) == "attr" and (recv[2] in TABLES or recv[2] == "records"):
                         tg2 = o.tag(recv[1])
                         if tg2 is not None and tg2[0] == "CB":
